@@ -76,6 +76,7 @@ package tablist
 //@   at-call doInternalEntity#6 as sLO: assert called(cLO) && res(cLO) && arg0 == currentEntry
 //@   at-call doInternalEntity#7 as sHat: assert called(cHat) && res(cHat) && arg0 == currentEntry
 //@   ensures [every-action-in-the-packet-reaches-the-model] called(cGM) ==> called(cLat) && called(cDN) && called(cChat) && called(cLi) && called(cLO) && called(cHat) && (res(cGM) == called(sGM)) && (res(cLat) == called(sLat)) && (res(cDN) == called(sDN)) && (res(cChat) == called(sChat)) && (res(cLi) == called(sLi)) && (res(cLO) == called(sLO)) && (res(cHat) == called(sHat))
+//@   ensures [only-a-partial-update-for-an-unknown-id-is-skipped] called(cAdd) && (!called(cGM) ==> !res(cAdd) && currentEntry == nil)
 //@   ensures [partial-update-for-an-unknown-id-is-ignored] called(cAdd) && !res(cAdd) && currentEntry == nil ==> !called(cGM) && result == nil
 // Each setter closure hands over the value from the packet.
 //@ func (*TabList).processUpdateForEntry$1
